@@ -18,3 +18,47 @@ pub open spec fn sts_bytes(t: int, cred: Seq<u8>, creq_hash: Seq<u8>) -> Seq<u8>
 pub open spec fn wrap_box_error(e: BoxError) -> SignatureError {
     if e.is::<SignatureError>() { e.payload::<SignatureError>() } else { SignatureError::InternalServiceError(e) }
 }
+
+// ---- Authorization header parameters (C19: "the last occurrence of a repeated parameter inside it") ----
+pub type BMap = IMap<Seq<u8>, Seq<u8>>;
+/// fold over the comma-separated pieces: trim, skip empty, split at the first '=', insert (later insertions replace earlier ones);
+/// None = some non-empty piece has no '='
+pub open spec fn auth_header_params(pieces: Seq<Seq<u8>>, n: int) -> Option<BMap>
+    decreases n
+{
+    if n <= 0 { Some(BMap::empty()) }
+    else {
+        match auth_header_params(pieces, n - 1) {
+            None => None,
+            Some(m) => {
+                let t = trim_ws(pieces[n - 1]);
+                if t.len() == 0 { Some(m) }
+                else if first_index(t, 0x3d, 0) >= t.len() { None }
+                else { Some(m.insert(split_first(t, 0x3d).0, split_first(t, 0x3d).1)) }
+            },
+        }
+    }
+}
+pub open spec fn K_CREDENTIAL() -> Seq<u8> { seq![0x43u8, 0x72, 0x65, 0x64, 0x65, 0x6e, 0x74, 0x69, 0x61, 0x6c] }
+pub open spec fn K_SIGNATURE() -> Seq<u8> { seq![0x53u8, 0x69, 0x67, 0x6e, 0x61, 0x74, 0x75, 0x72, 0x65] }
+pub open spec fn K_SIGNED_HEADERS() -> Seq<u8> { seq![0x53u8, 0x69, 0x67, 0x6e, 0x65, 0x64, 0x48, 0x65, 0x61, 0x64, 0x65, 0x72, 0x73] }
+pub open spec fn H_X_AMZ_DATE() -> Seq<u8> { seq![0x78u8, 0x2d, 0x61, 0x6d, 0x7a, 0x2d, 0x64, 0x61, 0x74, 0x65] }
+pub open spec fn H_DATE() -> Seq<u8> { seq![0x64u8, 0x61, 0x74, 0x65] }
+pub open spec fn H_X_AMZ_SECURITY_TOKEN() -> Seq<u8> { seq![0x78u8, 0x2d, 0x61, 0x6d, 0x7a, 0x2d, 0x73, 0x65, 0x63, 0x75, 0x72, 0x69, 0x74, 0x79, 0x2d, 0x74, 0x6f, 0x6b, 0x65, 0x6e] }
+pub open spec fn H_AUTHORIZATION() -> Seq<u8> { seq![0x61u8, 0x75, 0x74, 0x68, 0x6f, 0x72, 0x69, 0x7a, 0x61, 0x74, 0x69, 0x6f, 0x6e] }
+pub open spec fn Q_ALGORITHM() -> Seq<u8> { seq![0x58u8, 0x2d, 0x41, 0x6d, 0x7a, 0x2d, 0x41, 0x6c, 0x67, 0x6f, 0x72, 0x69, 0x74, 0x68, 0x6d] }
+pub open spec fn Q_CREDENTIAL() -> Seq<u8> { seq![0x58u8, 0x2d, 0x41, 0x6d, 0x7a, 0x2d, 0x43, 0x72, 0x65, 0x64, 0x65, 0x6e, 0x74, 0x69, 0x61, 0x6c] }
+pub open spec fn Q_DATE() -> Seq<u8> { seq![0x58u8, 0x2d, 0x41, 0x6d, 0x7a, 0x2d, 0x44, 0x61, 0x74, 0x65] }
+pub open spec fn Q_SECURITY_TOKEN() -> Seq<u8> { seq![0x58u8, 0x2d, 0x41, 0x6d, 0x7a, 0x2d, 0x53, 0x65, 0x63, 0x75, 0x72, 0x69, 0x74, 0x79, 0x2d, 0x54, 0x6f, 0x6b, 0x65, 0x6e] }
+pub open spec fn Q_SIGNED_HEADERS() -> Seq<u8> { seq![0x58u8, 0x2d, 0x41, 0x6d, 0x7a, 0x2d, 0x53, 0x69, 0x67, 0x6e, 0x65, 0x64, 0x48, 0x65, 0x61, 0x64, 0x65, 0x72, 0x73] }
+/// the signed-header list: the ';'-separated names, sorted
+pub open spec fn is_sorted_names(list: Seq<Seq<u8>>, names: Seq<Seq<u8>>) -> bool {
+    list.to_multiset() == names.to_multiset() && vstd::relations::sorted_by(list, |a: Seq<u8>, b: Seq<u8>| bytes_le(a, b))
+}
+pub proof fn lemma_apm_none_mono(pieces: Seq<Seq<u8>>, k: int, n: int)
+    requires 0 <= k <= n, auth_header_params(pieces, k) is None
+    ensures auth_header_params(pieces, n) is None
+    decreases n - k
+{
+    if k < n { lemma_apm_none_mono(pieces, k, n - 1); }
+}
